@@ -28,6 +28,7 @@ uint8_t *vf_malloc(uint64_t n);
 void vf_free_(uint8_t *p);
 uint8_t *vf_realloc_(uint8_t *p, uint64_t n);
 void vf_havoc(uint8_t *p, uint64_t n);
+void vf_obs(uint32_t v);     // observation appended to the transcript (C16 miter); no-op elsewhere
 }
 
 namespace vf {
@@ -255,6 +256,9 @@ static inline int blk_find(const void *p) {
   return -1;
 }
 static inline void *ledger_alloc(size_t bytes) {
+#ifdef VF_OBS_ALLOC
+  vf_obs(0xA1000000u | static_cast<uint32_t>(bytes));
+#endif
   ++g_alloc_calls;
   fault_point();
   uint8_t *p = vf_malloc(bytes);
@@ -269,6 +273,9 @@ static inline void *ledger_alloc(size_t bytes) {
 }
 static inline void ledger_free(void *p, size_t bytes) {
   if (p == nullptr && bytes == 0) return;   // deallocate(nullptr, 0): nothing is handed back (harmless, as free(NULL))
+#ifdef VF_OBS_ALLOC
+  vf_obs(0xA2000000u | static_cast<uint32_t>(bytes));
+#endif
   ++g_dealloc_calls;
   int k = blk_find(p);
   if (k < 0) {
@@ -285,6 +292,9 @@ static inline void *ledger_realloc(void *p, size_t oldBytes, size_t newBytes) {
     if (oldBytes != 0) abad(ABAD_REALLOC_OLD);
     return ledger_alloc(newBytes);  // amc::vector grows from empty through reallocate(nullptr, 0, n)
   }
+#ifdef VF_OBS_ALLOC
+  vf_obs(0xA3000000u | static_cast<uint32_t>(oldBytes << 12) | static_cast<uint32_t>(newBytes));
+#endif
   ++g_alloc_calls;
   fault_point();
   int k = blk_find(p);
